@@ -17,7 +17,8 @@ Record dcfg := {
   d_inflate : bytes -> option (bytes * N);
   d_float_text : bytes -> option N;
   d_kcmp : term -> term -> comparison;
-  d_kinsert : (term -> term -> comparison) -> term -> term -> list (term * term) -> list (term * term)
+  d_kinsert : (term -> term -> comparison) -> term -> term -> list (term * term) -> list (term * term);
+  d_extra_fuel : nat      (* total length of everything the inflate oracle can return: the code has no fuel, the model needs enough *)
 }.
 
 Fixpoint assoc (k : N) (l : list (N * N)) : option N :=
@@ -318,7 +319,7 @@ Definition decode (cfg : dcfg) (data : bytes) : dres :=
   | [] => DErr KEof
   | v :: r =>
       if v =? tag_version then
-        match parse cfg (length r + 2) r with
+        match parse cfg (length r + 2 + d_extra_fuel cfg) r with
         | POk t [] => DOk t
         | POk _ rest => DTrailing (len rest)
         | PErr k => DErr k
